@@ -145,6 +145,8 @@ def build(spec, world=None):
         return cls(**kw)
     if t == 'regions':
         return regions.Regions([])
+    if t == 'parsed':
+        return regions.Regions.parse(spec['text'], format='ds9')
     raise ValueError(f'bad spec {spec}')
 
 
@@ -360,8 +362,13 @@ def run_real(case):
     world = {}
     out = []
     extra = {}          # oracle material (not compared with the model)
+    def lists_state():
+        return {name: (id(o), id(o.regions), tuple(id(x) for x in o.regions))
+                for name, o in world.items() if isinstance(o, Regions)}
+
     for si, st in enumerate(case['prog']):
         do = st['do']
+        before = lists_state() if case['kind'] in ('regions', 'lists') else None
         try:
             if do == 'new':
                 world[st['dst']] = build(st['val'], world)
@@ -407,6 +414,14 @@ def run_real(case):
                     tgt.append(build(st['val'], world))
                 elif op == 'extend':
                     tgt.extend([build(v, world) for v in st['vals']])
+                elif op == 'extendfrom':
+                    tgt.extend(resolve_real(world, st['src']))
+                elif op == 'iadd':
+                    tgt += resolve_real(world, st['src'])
+                elif op == 'setitem':
+                    tgt[st['idx']] = build(st['val'], world)
+                elif op == 'delitem':
+                    del tgt[st['idx']]
                 elif op == 'insert':
                     tgt.insert(st['idx'], build(st['val'], world))
                 elif op == 'pop':
@@ -415,6 +430,24 @@ def run_real(case):
                     tgt.reverse()
                 else:
                     raise AssertionError(op)
+                out.append('ok')
+            elif do == 'rnew':
+                how = st['how']
+                items = [build(v, world) for v in st.get('items', [])]
+                if how == 'list':
+                    world[st['dst']] = Regions(list(items))
+                elif how == 'tuple':
+                    world[st['dst']] = Regions(tuple(items))
+                elif how == 'regions':
+                    world[st['dst']] = Regions(resolve_real(world, st['src']))
+                elif how == 'emptylist':
+                    world[st['dst']] = Regions([])
+                elif how == 'emptytuple':
+                    world[st['dst']] = Regions(())
+                elif how == 'noarg':
+                    world[st['dst']] = Regions()
+                else:
+                    raise AssertionError(how)
                 out.append('ok')
             elif do == 'slice':
                 src = resolve_real(world, st['src'])
@@ -443,6 +476,22 @@ def run_real(case):
             out.append('Unresolved')
         except Exception as e:
             out.append(exc_name(e))
+        if before is not None:
+            # identity-level independence of every live Regions object, after EVERY step
+            after = lists_state()
+            touched = st['at']['root'] if do == 'mut' else None
+            tid = after[touched][0] if touched in after else None
+            for name, (oid, lid, items) in after.items():
+                if name in before and before[name][0] == oid and oid != tid and before[name][2] != items:
+                    extra.setdefault('leaks', []).append(
+                        f'step {si} {do}/{st.get("op", "")} on {touched}: list {name} changed '
+                        f'{len(before[name][2])} -> {len(items)} items')
+            seen = {}
+            for name, (oid, lid, items) in after.items():
+                if lid in seen and seen[lid][0] != oid:
+                    extra.setdefault('shared', []).append(
+                        f'after step {si} {do}/{st.get("op", "")}: {seen[lid][1]}.regions is {name}.regions')
+                seen.setdefault(lid, (oid, name))
     return world, out, extra
 
 
@@ -462,6 +511,15 @@ def to_model_steps(st, real_out):
         return [{'do': 'copy', 'src': st['src'], 'dst': st['dst'],
                  'changes': [[k, v if (isinstance(v, dict) and 'ref' in v) else model_val(v)]
                              for k, v in st['changes']]}]
+    if do == 'rnew':
+        empty = {'do': 'new', 'dst': st['dst'], 'val': model_val({'t': 'regions'})}
+        at = {'root': st['dst'], 'path': ['regions']}
+        if st['how'] in ('list', 'tuple'):
+            return [empty, {'do': 'mut', 'at': at, 'op': 'extend', 'vals': st['items']}]
+        if st['how'] == 'regions':
+            # Regions(other): a new object around a new list of the same regions
+            return [{'do': 'rcopy', 'src': st['src'], 'dst': st['dst']}]
+        return [empty]
     if do in ('deepcopy', 'eq', 'ne', 'slice', 'rcopy', 'item', 'snap'):
         return [{k: v for k, v in st.items() if k != 'tag'}]
     if do == 'mut':
@@ -470,6 +528,16 @@ def to_model_steps(st, real_out):
             at = {'root': at['root'], 'path': at['path'] + ['regions']}
         op = st['op']
         m = {'do': 'mut', 'at': at, 'op': op}
+        if op == 'extendfrom':
+            return [dict(m, src=st['src'])]
+        if op in ('iadd', 'setitem', 'delitem'):
+            # list-protocol operations on the Regions OBJECT itself (not on its list)
+            tgt = st['at']
+            if op == 'iadd':
+                return [{'do': 'mut', 'at': tgt, 'op': 'extend', 'vals': []}]
+            if op == 'setitem':
+                return [{'do': 'mut', 'at': tgt, 'op': 'setidx', 'idx': abs(st['idx']), 'val': st['val']}]
+            return [{'do': 'mut', 'at': tgt, 'op': 'pop', 'idx': st['idx']}]
         if op == 'skyset':
             return [{'do': 'mut', 'at': {'root': at['root'], 'path': at['path'] + ['lon']}, 'op': 'setidx',
                      'idx': st['idx'], 'val': numj(unfl(st['lon']))},
@@ -737,8 +805,13 @@ class Check(PropertyCheck):
             'unit change with perturbation), every meta / visual key (changed value, removed, added), class swap, unit '
             're-expression, identical rebuild (also with reordered meta keys), NaN parameter; nested-operand perturbations '
             'for compounds; Regions lists (0-6 regions) x slices (None / negative / out-of-range / step incl. 0) or copy() x '
-            '1-8 append/extend/insert/pop/reverse/item edits on either list. Non-trivial = the program ran to its final '
-            'snapshot.')
+            '1-8 append/extend/insert/pop/reverse/item edits on either list; and programs over up to 8 Regions objects '
+            'created in every way (Regions(list / tuple / [] / () / no argument / another Regions), Regions.parse, copy(), '
+            'whole / partial / EMPTY slices) with 5-18 operations append / extend(list) / extend(Regions, also itself, '
+            'also into an empty receiver) / insert / pop / reverse / += / item assignment / item deletion (the last three: '
+            'TypeError) / slicing-then-edit, where after EVERY step every other live Regions object must be '
+            'identity-for-identity unchanged and no two objects may share their .regions list. Non-trivial = the '
+            'program ran to its final snapshot.')
     assumptions = [
         'numpy allclose / broadcasting of a length-1 axis, astropy Quantity unit conversion and SkyCoord comparison '
         '(TypeError for non-equivalent frames, ValueError for shapes that do not broadcast) behave as the formulas in '
@@ -801,6 +874,8 @@ class Check(PropertyCheck):
                         cases.append(self.gen_eq(g, cls))
         for _ in range(150 if tier == 'quick' else 4000):
             cases.append(self.gen_regions(g))
+        for _ in range(250 if tier == 'quick' else 6000):
+            cases.append(self.gen_lists(g))
         return cases
 
     # -- copy + mutation programs
@@ -1205,6 +1280,100 @@ class Check(PropertyCheck):
         prog.append({'do': 'snap', 'tag': 'after_edit'})
         return {'kind': 'regions', 'how': how, 'side': side, 'n': n, 'prog': prog}
 
+    # -- many Regions objects, created in every way, long edit sequences
+    def gen_lists(self, g):
+        r = g.rng
+        simple = ['CirclePixelRegion', 'PointPixelRegion', 'CircleSkyRegion', 'TextPixelRegion', 'LinePixelRegion']
+        prog = []
+        pool = []
+        for i in range(6):
+            prog.append({'do': 'new', 'dst': f'r{i}', 'val': g.region(r.choice(simple))})
+            pool.append({'ref': {'root': f'r{i}', 'path': []}})
+        live = []          # names of the Regions objects created so far
+
+        def ref(name):
+            return {'root': name, 'path': []}
+
+        def fresh():
+            return f'L{len(live)}'
+
+        def create(empty=None):
+            """one more Regions object; empty=True forces an empty one."""
+            name = fresh()
+            ways = ['list', 'tuple', 'emptylist', 'emptytuple', 'noarg', 'parsed']
+            if live:
+                ways += ['regions', 'slice', 'slice', 'emptyslice', 'whole', 'copy']
+            if empty:
+                ways = ['emptylist', 'emptytuple', 'noarg', 'list0'] + (['emptyslice', 'emptyslice'] if live else [])
+            how = r.choice(ways)
+            if how in ('list', 'tuple'):
+                prog.append({'do': 'rnew', 'dst': name, 'how': how,
+                             'items': [r.choice(pool) for _ in range(r.randint(0, 4))]})
+            elif how == 'list0':
+                prog.append({'do': 'rnew', 'dst': name, 'how': 'list', 'items': []})
+            elif how in ('emptylist', 'emptytuple', 'noarg'):
+                prog.append({'do': 'rnew', 'dst': name, 'how': how})
+            elif how == 'parsed':
+                prog.append({'do': 'new', 'dst': name, 'val': {'t': 'parsed', 'text': r.choice([
+                    'image\ncircle(1,2,3)\nbox(4,5,6,7,0)', 'image\npoint(1,2)', 'image\n'])}})
+            elif how == 'regions':
+                prog.append({'do': 'rnew', 'dst': name, 'how': 'regions', 'src': ref(r.choice(live))})
+            elif how == 'copy':
+                prog.append({'do': 'rcopy', 'src': ref(r.choice(live)), 'dst': name})
+            elif how == 'whole':
+                prog.append({'do': 'slice', 'src': ref(r.choice(live)), 'dst': name,
+                             'start': None, 'stop': None, 'step': r.choice([None, 1])})
+            elif how == 'emptyslice':
+                k = r.choice([0, 0, 1, 2, 5, -1])
+                prog.append({'do': 'slice', 'src': ref(r.choice(live)), 'dst': name,
+                             'start': k, 'stop': k, 'step': None})
+            else:
+                prog.append({'do': 'slice', 'src': ref(r.choice(live)), 'dst': name,
+                             'start': r.choice([None, r.randint(-4, 4)]), 'stop': r.choice([None, r.randint(-4, 4)]),
+                             'step': r.choice([None, None, 1, 2, -1])})
+            live.append(name)
+            return name
+
+        def edit(tname):
+            at = ref(tname)
+            c = r.random()
+            mk = lambda **kw: dict({'do': 'mut', 'api': 'regions', 'at': at}, **kw)
+            if c < 0.18:
+                return mk(op='append', val=r.choice(pool))
+            if c < 0.30:
+                return mk(op='extend', vals=[r.choice(pool) for _ in range(r.randint(0, 3))])
+            if c < 0.50:
+                return mk(op='extendfrom', src=ref(r.choice(live)))          # another object, or itself
+            if c < 0.64:
+                return mk(op='insert', idx=r.randint(-5, 5), val=r.choice(pool))
+            if c < 0.78:
+                return mk(op='pop', idx=r.choice([-1, -1, 0, r.randint(-5, 5)]))
+            if c < 0.88:
+                return mk(op='reverse')
+            if c < 0.92:
+                return mk(op='iadd', src=ref(r.choice(live)))                # unsupported: TypeError
+            if c < 0.96:
+                return mk(op='setitem', idx=r.randint(-2, 2), val=r.choice(pool))
+            return mk(op='delitem', idx=r.randint(-2, 2))
+
+        for _ in range(r.randint(1, 3)):
+            create()
+        scenario = r.random() < 0.6
+        if scenario:
+            # an EMPTY receiver extended with a Regions object, then edited
+            e = create(empty=True)
+            src = r.choice([n for n in live if n != e])
+            prog.append({'do': 'mut', 'api': 'regions', 'at': ref(e), 'op': 'extendfrom', 'src': ref(src)})
+            for _ in range(r.randint(1, 4)):
+                prog.append(edit(e))
+        for _ in range(r.randint(4, 14)):
+            if r.random() < 0.2 and len(live) < 8:
+                create(empty=r.random() < 0.4)
+            else:
+                prog.append(edit(r.choice(live)))
+        prog.append({'do': 'snap', 'tag': 'end'})
+        return {'kind': 'lists', 'how': 'scenario' if scenario else 'free', 'side': '-', 'prog': prog}
+
     # ---------------------------------------------------------------- real
     def real(self, case):
         world, out, extra = run_real(case)
@@ -1248,8 +1417,9 @@ class Check(PropertyCheck):
                     obs['given_ok'] = given
                 if 'rp_vertices_ok' in extra:
                     obs['rp_vertices_ok'] = extra['rp_vertices_ok']
-        if case['kind'] == 'regions':
-            obs['ids'] = {}
+        if case['kind'] in ('regions', 'lists'):
+            obs['leaks'] = extra.get('leaks', [])[:5]
+            obs['shared'] = extra.get('shared', [])[:5]
         return obs
 
     # ---------------------------------------------------------------- model
@@ -1397,7 +1567,12 @@ class Check(PropertyCheck):
             if expect is False and ab is not False:
                 bad('eq_misses_difference', f'{what}/{info.get("mode")}/{info.get("field", info.get("key"))}: '
                     f'expected unequal, a==b {ab}', mode=info.get('mode'), na=info.get('na'), nb=info.get('nb'))
-        elif case['kind'] == 'regions':
+        if case['kind'] in ('regions', 'lists'):
+            for msg in obs.get('leaks', []):
+                bad('list_edit_leaked', 'an edit of one Regions object changed another: ' + msg)
+            for msg in obs.get('shared', []):
+                bad('list_shared', 'two Regions objects share their underlying list: ' + msg)
+        if case['kind'] == 'regions':
             snaps = [(st.get('tag'), o) for o, st in zip(out, prog) if st['do'] == 'snap']
             if len(snaps) == 2 and isinstance(snaps[0][1], list) and isinstance(snaps[1][1], list):
                 s0, s1 = dict(snaps[0][1]), dict(snaps[1][1])
@@ -1469,7 +1644,7 @@ class Check(PropertyCheck):
         if case['kind'] == 'eq':
             i = case['info']
             return f"eq/{i['what']}/{i.get('mode', '-')}/{'sky' if case['cls'].endswith('SkyRegion') else 'pix'}"
-        return f"regions/{case['how']}/{case['side']}"
+        return f"{case['kind']}/{case['how']}/{case['side']}"
 
     # ---------------------------------------------------------------- whole-run checks
     def extra_checks(self, rng, tier):
